@@ -168,6 +168,35 @@ pub fn check(c: &Case) -> CaseResult {
             // filtered: the failure is attributed to it only if the query filters on an edge property AND the
             // failure vanishes on the same history with no edge properties and disjoint node/edge id ranges
             // (where `e.k` is NULL at every position).
+            // WITH DISTINCT .. WHERE: push-down moves the filter below the projection and the Distinct above it no
+            // longer removes duplicate bindings (known finding). Attributed only if the failure vanishes when the
+            // same query uses a plain WITH.
+            if matches!(c.query.mid, qgen::Mid::With { distinct: true }) {
+                let mut plain = c.clone();
+                plain.query.mid = qgen::Mid::With { distinct: false };
+                if check_inner(&plain).is_ok() {
+                    return Err(crate::driver::Failure { signature: "c09/with-distinct-multiplicity".into(), what: f.what });
+                }
+            }
+            // A variable bound again by a later MATCH / OPTIONAL MATCH is not unified by the engine: the join output
+            // has two columns of that name and operators resolve the name differently (Project: first, Filter: last),
+            // so a WITH .. WHERE filter on such a variable reads another binding once it is pushed below the
+            // projection (known finding). Attributed only to queries with WITH whose moved predicate reads a
+            // variable bound on both sides of a join.
+            if !matches!(c.query.mid, qgen::Mid::None) {
+                if let Some(Ok(plan)) = c.query.render(c.lang, false).map(|t| qgen::translate(c.lang, &t)) {
+                    let sc = c.query.scope();
+                    let mut dup = Default::default();
+                    qgen::doubly_bound_vars(&plan.root, &mut dup);
+                    let mut used = Default::default();
+                    if let Some(p) = &c.query.pred2 {
+                        qgen::pred_vars(p, &sc, &mut used);
+                    }
+                    if used.intersection(&dup).next().is_some() {
+                        return Err(crate::driver::Failure { signature: "c09/with-filter-on-doubly-bound-variable".into(), what: f.what });
+                    }
+                }
+            }
             let sc = c.query.scope();
             let edge_filter = c.query.pred.as_ref().is_some_and(|p| qgen::mentions_edge_prop(p, &sc))
                 || c.query.pred2.as_ref().is_some_and(|p| qgen::mentions_edge_prop(p, &sc))
@@ -235,8 +264,18 @@ fn check_inner(c: &Case) -> CaseResult {
             }
         }
         if bad {
+            // WITH DISTINCT .. WHERE: same set of rows, different multiplicities (see known findings)
+            let dedup = |r: &Rows| {
+                let mut v = qgen::sorted(r);
+                v.dedup();
+                v
+            };
+            let sig = match (&reference, &o) {
+                (Ok(r), Ok(x)) if matches!(c.query.mid, qgen::Mid::With { distinct: true }) && d == ref_dump && dedup(r) == dedup(x) => "c09/with-distinct-multiplicity",
+                _ => "c09/optimizer-changes-answer",
+            };
             return fail(
-                "c09/optimizer-changes-answer",
+                sig,
                 format!(
                     "{full_text}\n unoptimized (flat): {}\n optimized {:?} (flat): {}\n state equal: {}\n unoptimized plan: {}\n optimized plan:   {}",
                     short(&reference), v.configs, short(&o), d == ref_dump, crate::driver::truncate(&unopt_key, 1200), crate::driver::truncate(&v.key, 1200)
@@ -409,5 +448,5 @@ pub fn run(r: &mut Run) {
 
     let big = r.is_thorough();
     let nodes = if big { 30 } else { 12 };
-    r.subcheck("configs", r.cases(6_000, 400_000), move || case(nodes, 12), check);
+    r.subcheck("configs", r.cases(40_000, 400_000), move || case(nodes, 12), check);
 }
